@@ -27,11 +27,11 @@ def site_answer(rec, select, phased, ignore, base):
                     multi = True
         if not b2s:
             return None
+        if multi:
+            return None     # not a single-nucleotide site, whatever else the record holds
         if missing:
             pass            # a missing genotype makes the site usable with the bases that were seen (pinned behaviour, see DESIGN C18)
         else:
-            if multi:
-                return None
             if select is not None and len(assigned) != len(select):
                 return None
             if len(b2s) < 2:
